@@ -98,7 +98,7 @@ func evalC09(c *engine.Case) engine.Verdict {
 	well := engine.SingleInput(sc) || (!engine.DepCyclic(sc, engine.RPlus) && engine.AllConvsSatisfiable(sc, engine.RMinus))
 	// unique producer per label => the set of executed functions is determined
 	unique := true
-	srcs := engine.AllSourceLabels(sc)
+	srcs := engine.ProducerLabels(sc)
 	// (the converters a generator emits have parameters of their own)
 	fs := append(append([]engine.FuncSpec{sc.Target}, sc.Convs...), engine.GeneratedConvs(sc)...)
 	for i := range fs {
@@ -174,7 +174,7 @@ func evalC09(c *engine.Case) engine.Verdict {
 	// ("last wins") and give a parameter a second candidate
 	uniqueFor := func(st C09Step) bool {
 		s2 := stepScenario(st)
-		srcs := engine.AllSourceLabels(s2)
+		srcs := engine.ProducerLabels(s2)
 		fs := append(append([]engine.FuncSpec{s2.Target}, s2.Convs...), engine.GeneratedConvs(s2)...)
 		for i := range fs {
 			for _, p := range fs[i].In {
